@@ -553,6 +553,9 @@ pub enum Api {
     FromReader,
     FromSlice,
     FromStr,
+    /// parse the bytes into a `serde_json::Value` tree first, then decode from
+    /// the tree (`Value`'s own Deserializer: owned keys, de-duplicated maps)
+    ViaValue,
 }
 
 #[derive(Clone, Debug, Serialize, Deserialize, PartialEq, Default)]
@@ -726,6 +729,20 @@ fn read_as<T: for<'de> Deserialize<'de>>(host: Host, bytes: &[u8], api: Api, pla
             eof_fired: false,
             log: 0,
         },
+        Api::ViaValue => {
+            let r = match serde_json::from_slice::<serde_json::Value>(bytes) {
+                Err(e) => Err(e.to_string()),
+                Ok(v) => {
+                    if host == Host::Stream {
+                        // a Value holds one document; treat it as a one-record stream
+                        T::deserialize(v).map(|t| vec![t]).map_err(|e| e.to_string())
+                    } else {
+                        host_from::<T, _>(host, v).map_err(|e| e.to_string())
+                    }
+                }
+            };
+            ReadOutcome { result: r, calls: 0, interrupts: 0, hard_fired: false, eof_fired: false, log: 0 }
+        }
         Api::FromStr => {
             let r = match std::str::from_utf8(bytes) {
                 Ok(s) => finish::<T, _>(host, serde_json::Deserializer::from_str(s)),
@@ -768,6 +785,7 @@ pub fn execute_read(c: &JsonReadCase) -> LegReport {
         Api::FromReader => "json_api_from_reader",
         Api::FromSlice => "json_api_from_slice",
         Api::FromStr => "json_api_from_str",
+        Api::ViaValue => "json_api_via_value",
     });
     rep.probes.hit(host_probe(c.host));
 
@@ -1081,9 +1099,10 @@ pub fn generate_read(r: &mut Rng, hi: u64, lo: u64, other: (u64, u64)) -> JsonRe
         }
     };
     let base_kind = format!("{shape}/{wkind}/{}", host.name());
-    let api = match r.below(4) {
+    let api = match r.below(5) {
         0 => Api::FromSlice,
         1 => Api::FromStr,
+        2 => Api::ViaValue,
         _ => Api::FromReader,
     };
     let mut c = JsonReadCase { base, base_kind, host, faults: vec![], api, plan: ReaderPlan::default() };
